@@ -341,4 +341,69 @@ Proof.
   unfold lookups in *. simpl. apply IH. apply (get_by_id_warn fixed is_doc own d wc i). exact Hw.
 Qed.
 
+(* ---- histories on one document *)
+Notation doc_run := (doc_run F).
+Notation mutate := (mutate F).
+Notation mutations := (mutations F).
+
+(* look ups never edit the document: after any history it is the original with the edits applied, in order *)
+Lemma doc_run_doc fixed is_doc own ops : forall d wc,
+  fst (doc_run fixed is_doc own (d, wc) ops) = mutate (mutations ops) d.
+Proof.
+  induction ops as [|o r IH]; intros d wc; [reflexivity|].
+  unfold Super.doc_run in *. simpl. destruct o as [f|i]; simpl; apply IH.
+Qed.
+
+Lemma doc_run_counter fixed is_doc own ops : forall d wc,
+  (wc <= 10)%nat -> (snd (doc_run fixed is_doc own (d, wc) ops) <= 10)%nat.
+Proof.
+  induction ops as [|o r IH]; intros d wc Hw; [exact Hw|].
+  unfold Super.doc_run in *. simpl. destruct o as [f|i]; simpl; apply IH; [exact Hw|].
+  apply (get_by_id_warn fixed is_doc own d wc i). exact Hw.
+Qed.
+
+(* repaired code: the answer does not depend on the counter at all *)
+Lemma get_by_id_res_counter is_doc own d wc wc' i :
+  g_res F (get_by_id true is_doc own d wc i) = g_res F (get_by_id true is_doc own d wc' i).
+Proof.
+  unfold Super.get_by_id. destruct (is_doc && String.eqb i ""); [reflexivity|].
+  destruct (scan_members i (o_fields d) own []); simpl; try reflexivity.
+  destruct (Nat.ltb wc 10), (Nat.ltb wc' 10); simpl;
+    try destruct (Nat.eqb wc 10); try destruct (Nat.eqb wc' 10); reflexivity.
+Qed.
+
+(* get_by_id after ANY sequence of edits and earlier look ups = the model on the document as it is now:
+   nothing an earlier look up found or missed is remembered *)
+Lemma get_by_id_history is_doc own ops d wc i :
+  let st := doc_run true is_doc own (d, wc) ops in
+  g_res F (get_by_id true is_doc own (fst st) (snd st) i)
+  = g_res F (get_by_id true is_doc own (mutate (mutations ops) d) 0 i).
+Proof.
+  simpl. rewrite doc_run_doc. apply get_by_id_res_counter.
+Qed.
+
+(* code as it is: the same, the counter being the only state carried along *)
+Lemma get_by_id_history_orig fixed is_doc own ops d wc i :
+  let st := doc_run fixed is_doc own (d, wc) ops in
+  get_by_id fixed is_doc own (fst st) (snd st) i
+  = get_by_id fixed is_doc own (mutate (mutations ops) d) (snd st) i.
+Proof. simpl. rewrite doc_run_doc. reflexivity. Qed.
+
+(* the specification after any history, about the document as it is NOW *)
+Lemma get_by_id_history_spec is_doc own ops d wc i :
+  let st := doc_run true is_doc own (d, wc) ops in
+  let now := mutate (mutations ops) d in
+  let r := g_res F (get_by_id true is_doc own (fst st) (snd st) i) in
+  (forall x, r = GFound F x -> id_matches i x = true /\ in_searched (o_fields now) own x) /\
+  (i <> "" -> all_iterable (o_fields now) own ->
+   (exists x, in_searched (o_fields now) own x /\ id_matches i x = true) -> exists y, r = GFound F y) /\
+  (all_iterable (o_fields now) own -> (forall x, in_searched (o_fields now) own x -> id_matches i x = false) ->
+   r = GNone F).
+Proof.
+  simpl. rewrite get_by_id_history. split; [|split].
+  - intros x H. exact (get_by_id_sound true is_doc own _ 0 i x H).
+  - intros Hi Hit Hex. exact (get_by_id_complete true is_doc own _ 0 i Hi Hit Hex).
+  - intros Hit Hno. apply get_by_id_none; auto.
+Qed.
+
 End GetById.
